@@ -27,5 +27,17 @@ FINDINGS = [
          what="Google/NumPy style without footer, some indentation/trailing-whitespace combinations: the last line of the Returns block is returned as the footer",
          site="cdd/shared/docstring_utils.py:_get_token_last_idx",
          example="Google docstring ending '  Returns:\\n    str: the result' -> footer == '    str: the result'"),
+    dict(id="C15-footer-after-last-type-line-makes-parser-raise", property="C15",
+         pattern=dict(check="prose", clause={"in": ["parse_raises", "function_conversion_raises"]}, section="params_only", exc="SyntaxError", style={"in": ["rest", "numpydoc"]}),
+         what="a docstring that documents parameters only (no return entry) and continues with a prose footer: the last parameter's type absorbs the footer text "
+         "(ReST: everything after ':type beta: ```int```'; NumPy through function.parse / with an 'Example::' footer) and the parser then raises SyntaxError trying to "
+         "read that text as a type expression - same root as C15-rest-footer-absorbed-into-return-type / C14 R-type-absorbs-prose, but here the call fails",
+         site="cdd/shared/docstring_parsers.py:_scan_phase_rest / _set_name_and_type (ast.parse of the absorbed text)",
+         example="'Summary.\\n\\n:param beta: the beta\\n:type beta: ```int```\\n\\nNotes about the usage' -> cdd.docstring.parse.docstring raises SyntaxError"),
+    dict(id="C15-numpy-params-only-boundary-one-line-early", property="C15",
+         pattern=dict(check="prose", clause="split_boundary", boundary="section_end", delta_lines=-1, mid_line=False, style="numpydoc", section="params_only"),
+         what="NumPy Parameters section without Returns, followed by a footer: the description line of the last parameter is returned as part of the footer",
+         site="cdd/shared/docstring_utils.py:_get_token_last_idx",
+         example="'...beta : int\\n    the beta. Defaults to 5\\n\\n>>> thing(1, 2)' -> section ends before '    the beta...'"),
 ]
 FIXED = []
